@@ -58,12 +58,12 @@ theorem clip_noself (S : List NI) (i : Nat) (n : Note) (x : Rat) (hS : SortedBy 
     by_cases hlt : m.1.on < n.off
     · have hnle : ¬ n.off ≤ m.1.on := not_le.mpr hlt
       have : cutsIn (m :: S') i n.off = cutsIn S' i n.off := by
-        simp [cutsIn, List.filter_cons, hnle]
+        simp [cutsIn, hnle]
       rw [this, ← ih']
-      simp [searchsortedLeft, List.takeWhile_cons, hlt, cutAt]
+      simp [searchsortedLeft, hlt, cutAt]
     · have hle : n.off ≤ m.1.on := not_lt.mp hlt
       have : cutsIn (m :: S') i n.off = m.1.on :: cutsIn S' i n.off := by
-        simp [cutsIn, List.filter_cons, hle, hm]
+        simp [cutsIn, hle, hm]
       rw [this]
       simp only [searchsortedLeft, List.map_cons, List.takeWhile_cons, hlt, decide_false,
         Bool.false_eq_true, if_false, List.length_nil, List.getElem?_cons_zero, List.foldl_cons, cutAt]
@@ -102,7 +102,7 @@ theorem clipIn_spec (S : List NI) (i : Nat) (n : Note) (x : Rat) (hS : SortedBy 
     by_cases hlt : m.1.on < n.off
     · have hnle : ¬ n.off ≤ m.1.on := not_le.mpr hlt
       have hcut : cutsIn (m :: S') i n.off = cutsIn S' i n.off := by
-        simp [cutsIn, List.filter_cons, hnle]
+        simp [cutsIn, hnle]
       rw [hcut]
       by_cases hm : m.2 = i
       · -- the note itself, strictly inside: it is not in the rest
@@ -135,8 +135,7 @@ theorem clipIn_spec (S : List NI) (i : Nat) (n : Note) (x : Rat) (hS : SortedBy 
         cases S' with
         | nil => simp
         | cons m' S'' =>
-          simp only [List.map_cons, zero_add, List.getElem?_cons_succ, List.getElem?_cons_zero, List.foldl_cons,
-            if_true]
+          simp only [List.map_cons, zero_add, List.getElem?_cons_succ, List.getElem?_cons_zero, List.foldl_cons]
           symm
           apply foldl_min_eq_init
           intro y hy
@@ -144,7 +143,7 @@ theorem clipIn_spec (S : List NI) (i : Nat) (n : Note) (x : Rat) (hS : SortedBy 
           have := (List.pairwise_cons.mp hs.2).1 a ha
           exact le_trans (min_le_right _ _) this
       · have hcut : cutsIn (m :: S') i n.off = m.1.on :: cutsIn S' i n.off := by
-          simp [cutsIn, List.filter_cons, hle, hm]
+          simp [cutsIn, hle, hm]
         rw [hcut]
         unfold restrikeClipIn
         simp only [List.map_cons, findPos, hm, decide_false, Bool.false_eq_true, if_false, searchsortedLeft,
